@@ -598,13 +598,84 @@ class C18(Check):
     trusted_base = ["hand-written model lean/Verif/C18/Model.lean, tied to delphin.edm by the correspondence run "
                     "(exact rationals via fractions.Fraction; _accumulate totals and compute scores)"]
 
+    LOG_NAMES = ("logger", "logging", "info", "debug", "INFO", "isEnabledFor")
+
+    def pins(self):
+        """(key, values) pairs read from the live code objects: parameter names and defaults, the numeric /
+        string constants and the global / attribute names (co_consts, co_names, nested code objects included)
+        of every function the model mirrors.  Left out as semantically irrelevant: docstrings, the texts
+        handed to the logger (all string constants of `compute` and `_accumulate` are such texts) and the
+        names of the logging machinery."""
+        import types
+        from delphin import lnk as L, sembase as S
+        from delphin.dmrs import _dmrs as D
+        from delphin.eds import _eds as E
+
+        def walk(code, prefix):
+            yield prefix, code
+            for c in code.co_consts:
+                if isinstance(c, types.CodeType):
+                    yield from walk(c, prefix + "." + c.co_name)
+
+        out = []
+
+        def fn_pins(key, fn, strings=True, params=False):
+            fn = getattr(fn, "__func__", fn)
+            if params:
+                code = fn.__code__
+                out.append((key + ".params", list(code.co_varnames[:code.co_argcount + code.co_kwonlyargcount])))
+                out.append((key + ".defaults", [repr(x) for x in (fn.__defaults__ or ())]
+                            + ["%s=%r" % kv for kv in sorted((fn.__kwdefaults__ or {}).items())]))
+            for k, code in walk(fn.__code__, key):
+                consts = [c for c in code.co_consts if not isinstance(c, types.CodeType)
+                          and not (isinstance(c, str) and (c == fn.__doc__ or not strings))]
+                out.append((k + ".consts", [repr(c) for c in consts]))
+                out.append((k + ".names", [n for n in code.co_names if n not in self.LOG_NAMES]))
+
+        fn_pins("edm.compute", edm.compute, strings=False, params=True)
+        fn_pins("edm._accumulate", edm._accumulate, strings=False, params=True)
+        for nm in ("_match", "_count", "_prf", "_span", "_names", "_arguments", "_properties", "_constants"):
+            fn_pins("edm." + nm, getattr(edm, nm), params=True)
+        fn_pins("edm._Count.add", edm._Count.add)
+        fn_pins("edm._Match.add", edm._Match.add)
+        out.append(("edm._Count._fields", list(edm._Count._fields)))
+        out.append(("edm._Match._fields", list(edm._Match._fields)))
+        out.append(("edm._Score._fields", list(edm._Score._fields)))
+        fn_pins("dmrs.DMRS.arguments", D.DMRS.arguments, params=True)
+        fn_pins("dmrs._normalize_top_and_links", D._normalize_top_and_links, params=True)
+        out.append(("dmrs.constants", ["BARE_EQ_ROLE=%r" % D.BARE_EQ_ROLE, "TOP_NODE_ID=%r" % D.TOP_NODE_ID,
+                                       "H_POST=%r" % D.H_POST, "HEQ_POST=%r" % D.HEQ_POST]))
+        fn_pins("eds.EDS.arguments", E.EDS.arguments, params=True)
+        fn_pins("dmrs.DMRS.__init__", D.DMRS.__init__, params=True)
+        fn_pins("dmrs.Node.__init__", D.Node.__init__, params=True)
+        fn_pins("dmrs.Link.__init__", D.Link.__init__, params=True)
+        fn_pins("eds.EDS.__init__", E.EDS.__init__, params=True)
+        fn_pins("eds.Node.__init__", E.Node.__init__, params=True)
+        fn_pins("sembase.SemanticStructure.__init__", S.SemanticStructure.__init__, params=True)
+        fn_pins("sembase.SemanticStructure.__contains__", S.SemanticStructure.__contains__)
+        fn_pins("sembase.SemanticStructure.__getitem__", S.SemanticStructure.__getitem__)
+        fn_pins("lnk.LnkMixin.cfrom", L.LnkMixin.cfrom.fget)
+        fn_pins("lnk.LnkMixin.cto", L.LnkMixin.cto.fget)
+        fn_pins("lnk.Lnk.charspan", L.Lnk.charspan)
+        out.append(("lnk.Lnk.types", ["%s=%r" % (k, getattr(L.Lnk, k))
+                                      for k in ("UNSPECIFIED", "CHARSPAN", "CHARTSPAN", "TOKENS", "EDGE")]))
+        return out
+
     def tables(self):
         """the constants of the code the model depends on, read from the live module"""
         from delphin.dmrs import _dmrs as d
-        return ["/-- `dmrs.BARE_EQ_ROLE`: links with this role are not arguments -/",
-                "def c18BareEqRole : List Char := %s" % tables.lean_str(d.BARE_EQ_ROLE),
-                "/-- `dmrs.TOP_NODE_ID`: start id of the legacy top link -/",
-                "def c18TopNodeId : Nat := %d" % int(d.TOP_NODE_ID)]
+        lit = tables.lean_strlit
+        lines = ["/-- `dmrs.BARE_EQ_ROLE`: links with this role are not arguments -/",
+                 "def c18BareEqRole : List Char := %s" % tables.lean_str(d.BARE_EQ_ROLE),
+                 "/-- `dmrs.TOP_NODE_ID`: start id of the legacy top link -/",
+                 "def c18TopNodeId : Nat := %d" % int(d.TOP_NODE_ID),
+                 "/-- parameters, defaults, constants and names of the functions the C18 model mirrors -/",
+                 "def c18Pins : List (String × List String) := ["]
+        pins = self.pins()
+        for i, (k, vs) in enumerate(pins):
+            lines.append("  (%s, [%s])%s" % (lit(k), ", ".join(lit(v) for v in vs), "," if i + 1 < len(pins) else ""))
+        lines.append("]")
+        return lines
 
     # ---- generation
     def cases(self, rng, tier, n):
